@@ -503,6 +503,130 @@ Proof.
     rewrite Req_b_false by lra. reflexivity.
 Qed.
 
+(* ---------- covariance of the repaired unit tangent at EVERY point, singular ones included ---- *)
+Lemma cplx_zero_dec (d : Cplx R) : {d = (0, 0)} + {d <> (0, 0)}.
+Proof.
+  destruct d as [x y]. destruct (Req_EM_T x 0) as [->|Hx]; [destruct (Req_EM_T y 0) as [->|Hy]|].
+  - left; reflexivity.
+  - right; intros E; inversion E; contradiction.
+  - right; intros E; inversion E; contradiction.
+Qed.
+Lemma cubic_d3_affine w z s c1 c2 e t :
+  cubic_d NR (aff w z s) (aff w z c1) (aff w z c2) (aff w z e) t 3 = cmul NR w (cubic_d NR s c1 c2 e t 3).
+Proof. cp_ring. Qed.
+Lemma cubic_d3_reversed s c1 c2 e t :
+  cubic_d NR e c2 c1 s (1 - t) 3 = copp NR (cubic_d NR s c1 c2 e t 3).
+Proof. cp_ring. Qed.
+Lemma copp_cmul w d : copp NR (cmul NR w d) = cmul NR w (copp NR d).
+Proof. destruct w, d. unfold copp, cmul; cbn. f_equal; ring. Qed.
+
+(* the direction search of the repaired fallback commutes with d |-> w d *)
+Lemma first_dir_cmul w (Hw : w <> (0, 0)) hi : forall n b,
+  first_dir NR TR n (map (cmul NR w) hi) b = res_map (cmul NR (unit_of NR TR w)) (first_dir NR TR n hi b).
+Proof.
+  induction hi as [|d r IH]; intros n b; [reflexivity|]. cbn [map first_dir].
+  destruct (cplx_zero_dec d) as [->|Hd].
+  - rewrite cmul0r, (ceqb_R_true (eq_refl _)). apply IH.
+  - rewrite (ceqb_R_false Hd), (ceqb_R_false (cmul_nz Hw Hd)). cbn [res_map]. f_equal.
+    destruct (b && Nat.even n).
+    + rewrite copp_cmul. apply unit_of_cmul; [exact Hw|apply copp_nz, Hd].
+    + apply unit_of_cmul; assumption.
+Qed.
+
+Lemma bezier_unit_tangent_rep_cmul w (Hw : w <> (0, 0)) poly poly' d hi t :
+  bezier_unit_tangent NR TR true poly' (cmul NR w d) (map (cmul NR w) hi) t
+  = res_map (cmul NR (unit_of NR TR w)) (bezier_unit_tangent NR TR true poly d hi t).
+Proof.
+  destruct (cplx_zero_dec d) as [->|Hd].
+  - rewrite cmul0r, !bezier_unit_tangent_singular_rep. apply first_dir_cmul; exact Hw.
+  - rewrite !bezier_unit_tangent_regular; [|exact Hd|apply cmul_nz; assumption].
+    cbn [res_map]. f_equal. apply unit_of_cmul; assumption.
+Qed.
+
+(* similarity p |-> w p + z applied to the control points: at every t, whether the derivative
+   vanishes or not (and when no direction exists both sides are the same error) *)
+Lemma tangent_similarity_all_cubic w z s c1 c2 e t : w <> (0, 0) ->
+  cubic_unit_tangent NR TR true (aff w z s) (aff w z c1) (aff w z c2) (aff w z e) t
+  = res_map (cmul NR (unit_of NR TR w)) (cubic_unit_tangent NR TR true s c1 c2 e t).
+Proof.
+  intros Hw. unfold cubic_unit_tangent.
+  rewrite cubic_d1_affine, cubic_d2_affine, cubic_d3_affine.
+  apply (bezier_unit_tangent_rep_cmul Hw _ _ _ [cubic_d NR s c1 c2 e t 2; cubic_d NR s c1 c2 e t 3]).
+Qed.
+Lemma tangent_similarity_all_quad w z s c e t : w <> (0, 0) ->
+  quad_unit_tangent NR TR true (aff w z s) (aff w z c) (aff w z e) t
+  = res_map (cmul NR (unit_of NR TR w)) (quad_unit_tangent NR TR true s c e t).
+Proof.
+  intros Hw. unfold quad_unit_tangent. rewrite quad_d1_affine, quad_d2_affine.
+  apply (bezier_unit_tangent_rep_cmul Hw _ _ _ [quad_d NR s c e t 2]).
+Qed.
+
+(* reversal at the end points (t = 0 <-> 1 - t = 1), singular or not: the tangent is negated *)
+Lemma res_map_ext {A B} (f g : A -> B) r : (forall a, f a = g a) -> res_map f r = res_map g r.
+Proof. intros H. destruct r; cbn; rewrite ?H; reflexivity. Qed.
+Lemma copp_copp d : copp NR (copp NR d) = d.
+Proof. destruct d. unfold copp; cbn. f_equal; ring. Qed.
+Lemma copp_zero_iff d : copp NR d = (0, 0) <-> d = (0, 0).
+Proof.
+  split; intros H.
+  - rewrite <- (copp_copp d), H. unfold copp; cbn. f_equal; ring.
+  - subst. unfold copp; cbn. f_equal; ring.
+Qed.
+
+Lemma tangent_reversed_ends_cubic s c1 c2 e t : t = 0 \/ t = 1 ->
+  cubic_unit_tangent NR TR true e c2 c1 s (1 - t)
+  = res_map (copp NR) (cubic_unit_tangent NR TR true s c1 c2 e t).
+Proof.
+  intros Ht. destruct (cplx_zero_dec (cubic_d NR s c1 c2 e t 1)) as [H1|H1];
+    [|apply tangent_reversed_cubic; exact H1].
+  unfold cubic_unit_tangent. rewrite cubic_d1_reversed, cubic_d2_reversed, cubic_d3_reversed, H1.
+  replace (copp NR (0, 0)) with ((0, 0) : Cplx R) by (unfold copp; cbn; f_equal; ring).
+  rewrite !bezier_unit_tangent_singular_rep. unfold unit_tangent_fallback_repaired.
+  set (d2 := cubic_d NR s c1 c2 e t 2). set (d3 := cubic_d NR s c1 c2 e t 3).
+  assert (B : eqb NR (1 - t) (one NR) = negb (eqb NR t (one NR))).
+  { cbn [eqb NumR one]. destruct Ht as [->| ->].
+    - replace (1 - 0) with 1 by ring. rewrite (proj2 (Req_b_true 1 1) eq_refl), (Req_b_false (x:=0) (y:=1)) by lra.
+      reflexivity.
+    - replace (1 - 1) with 0 by ring. rewrite (proj2 (Req_b_true 1 1) eq_refl), (Req_b_false (x:=0) (y:=1)) by lra.
+      reflexivity. }
+  rewrite B. cbn [first_dir Nat.even].
+  destruct (cplx_zero_dec d2) as [E2|N2].
+  - rewrite E2, (ceqb_R_true (eq_refl _)).
+    destruct (cplx_zero_dec d3) as [E3|N3].
+    + rewrite E3. replace (copp NR (0, 0)) with ((0, 0) : Cplx R) by (unfold copp; cbn; f_equal; ring).
+      rewrite (ceqb_R_true (eq_refl _)). reflexivity.
+    + rewrite (ceqb_R_false N3), (ceqb_R_false (copp_nz N3)). rewrite !andb_false_r.
+      cbn [res_map]. f_equal. apply unit_of_copp.
+  - rewrite (ceqb_R_false N2). cbn [res_map]. f_equal. rewrite !andb_true_r.
+    destruct (eqb NR t (one NR)); cbn [negb].
+    + rewrite unit_of_copp, copp_copp. reflexivity.
+    + apply unit_of_copp.
+Qed.
+Lemma tangent_reversed_ends_quad s c e t : t = 0 \/ t = 1 ->
+  quad_unit_tangent NR TR true e c s (1 - t)
+  = res_map (copp NR) (quad_unit_tangent NR TR true s c e t).
+Proof.
+  intros Ht. destruct (cplx_zero_dec (quad_d NR s c e t 1)) as [H1|H1];
+    [|apply tangent_reversed_quad; exact H1].
+  unfold quad_unit_tangent. rewrite quad_d1_reversed, quad_d2_reversed, H1.
+  replace (copp NR (0, 0)) with ((0, 0) : Cplx R) by (unfold copp; cbn; f_equal; ring).
+  rewrite !bezier_unit_tangent_singular_rep. unfold unit_tangent_fallback_repaired.
+  set (d2 := quad_d NR s c e t 2).
+  assert (B : eqb NR (1 - t) (one NR) = negb (eqb NR t (one NR))).
+  { cbn [eqb NumR one]. destruct Ht as [->| ->].
+    - replace (1 - 0) with 1 by ring. rewrite (proj2 (Req_b_true 1 1) eq_refl), (Req_b_false (x:=0) (y:=1)) by lra.
+      reflexivity.
+    - replace (1 - 1) with 0 by ring. rewrite (proj2 (Req_b_true 1 1) eq_refl), (Req_b_false (x:=0) (y:=1)) by lra.
+      reflexivity. }
+  rewrite B. cbn [first_dir Nat.even].
+  destruct (cplx_zero_dec d2) as [E2|N2].
+  - rewrite E2, (ceqb_R_true (eq_refl _)). reflexivity.
+  - rewrite (ceqb_R_false N2). cbn [res_map]. f_equal. rewrite !andb_true_r.
+    destruct (eqb NR t (one NR)); cbn [negb].
+    + rewrite unit_of_copp, copp_copp. reflexivity.
+    + apply unit_of_copp.
+Qed.
+
 (* ---------- executable witnesses of the same defect ---------- *)
 (* exact rationals: rational_limit(d^2, |d|^2, 0) = -i = ((-1+i)/sqrt 2)^2, computed exactly *)
 Definition wq_poly : list (Cplx Qc) :=
